@@ -1,10 +1,280 @@
 import Dmn.Model.Sexp
+import Dmn.Model.Json
+import Dmn.Model.ServerModel
+import Dmn.Model.Dto
 
-/-! Driver handler for C18 — not implemented yet. -/
+/-!
+Driver handler for C18.
+
+* `(c18 jsonify <jv>)` → `((text (s …)) (decoded <json>|none) (expected <json>) (fixed (s …))
+  (fixeddecoded <json>|none) (noesc b) (numsok b))`
+* `(c18 decode (s …))` → `<json>` | `none`
+* `(c18 serve <req>…)` → `((model <resp>…) (spec <resp>…))` — `model` = the handlers as the code
+  has them, `spec` = with the replace handler repaired.
+
+* `(c18 dto <tv> (<kind> (s text) (s canonical)|none)…)` → `((dto <json>) (back <tv>|none) (backdto <json>|none) (canonical b))`:
+  the DTO of a typed value as `serde_json` writes it, and what reading it back gives; the
+  table lists what the text readers answer (computed by the harness in-process).
+
+`<tv>` = `(null)` `(b true)` `(str (s …))` `(k <kind> (s …))` `(l <tv>…)` `(c ((s …) <tv>)…)`;
+`<jv>` = `(null)` `(b true)` `(n (s …))` `(str (s …))` `(l <jv>…)` `(c ((s …) <jv>)…)` `(o (s …))`;
+`<json>` = `null` `(b true)` `(n (s …))` `(str (s …))` `(arr …)` `(obj ((s …) <json>)…)`.
+`<req>` = `(add <content>)` `(replace <content>)` `(remove <ns?> <name?>)` `clear` `deploy`
+`(eval <model> <invocable> ok|bad <jv>)` with `<content>` = `none` | `b64` | `utf8` | `xml` |
+`(m ns name builds)` and `<ns?>` = `none` | atom.
+-/
 
 namespace Dmn.Driver.C18
-open Dmn
+open Dmn Dmn.Json Dmn.Server Dmn.WS
 
-def handle (_args : List Sexp) : String := "(error not-implemented)"
+partial def jvOf : Sexp → Option JV
+  | .list [.atom "null"] => some .null
+  | .list [.atom "b", b] => (Sexp.bool? b).map JV.bool
+  | .list [.atom "n", t] => (Sexp.chars? t).map JV.num
+  | .list [.atom "str", t] => (Sexp.chars? t).map JV.str
+  | .list [.atom "o", t] => (Sexp.chars? t).map JV.other
+  | .list (.atom "l" :: xs) => (xs.mapM jvOf).map JV.list
+  | .list (.atom "c" :: es) =>
+    (es.mapM (fun (e : Sexp) => match e with
+      | .list [k, v] => do
+        let k ← Sexp.chars? k
+        let v ← jvOf v
+        pure (k, v)
+      | _ => none)).map JV.ctx
+  | _ => none
+
+partial def jsonSexp : Json → Sexp
+  | .null => .atom "null"
+  | .bool b => .list [.atom "b", Sexp.ofBool b]
+  | .num t => .list [.atom "n", Sexp.ofChars t]
+  | .str s => .list [.atom "str", Sexp.ofChars s]
+  | .arr xs => .list (.atom "arr" :: xs.map jsonSexp)
+  | .obj ms => .list (.atom "obj" :: ms.map (fun (k, v) => .list [Sexp.ofChars k, jsonSexp v]))
+
+def optJson : Option Json → Sexp
+  | some j => jsonSexp j
+  | none => .atom "none"
+
+/-- The symbolic codec of the driver: the content parameter is the tag the harness sent. -/
+def codec : Codec where
+  base64 := fun t => if t == ['b', '6', '4'] then none else some (t.map Char.toNat)
+  utf8 := fun bs => if bs == ['u', 't', 'f', '8'].map Char.toNat then none else some (bs.map Char.ofNat)
+  parse := fun xml =>
+    match (String.ofList xml).splitOn "\n" with
+    | ["m", ns, name, b] => .ok ⟨ns, name, b == "true"⟩
+    | _ => .error "xml".toList
+
+def contentOf : Sexp → Option (Option (List Char))
+  | .atom "none" => some none
+  | .atom "b64" => some (some ['b', '6', '4'])
+  | .atom "utf8" => some (some ['u', 't', 'f', '8'])
+  | .atom "xml" => some (some ['x', 'm', 'l'])
+  | .list [.atom "m", .atom ns, .atom name, .atom b] => some (some ("\n".intercalate ["m", ns, name, b]).toList)
+  | _ => none
+
+def optAtom : Sexp → Option (Option String)
+  | .atom "none" => some none
+  | .atom a => some (some a)
+  | _ => none
+
+/-- The evaluator oracle of the driver: the request carries the value a deployed model
+answers (computed by the harness from the alphabet: literal decision, echo decision,
+unknown invocable). -/
+def reqOf : Sexp → Option (Request JV)
+  | .atom "clear" => some .clear
+  | .atom "deploy" => some .deploy
+  | .list [.atom "add", c] => (contentOf c).map .add
+  | .list [.atom "replace", c] => (contentOf c).map .replace
+  | .list [.atom "remove", ns, name] => do
+    let ns ← optAtom ns
+    let name ← optAtom name
+    pure (.remove ns name)
+  | .list [.atom "eval", m, i, .atom ok, v] => do
+    let m ← optAtom m
+    let i ← optAtom i
+    let v ← jvOf v
+    pure (.evaluate m i (if ok == "ok" then .ok v else .error "input".toList))
+  | _ => none
+
+def errKind : Err → String
+  | .missingParameter _ => "missingParameter"
+  | .invalidBase64 => "invalidBase64"
+  | .invalidUtf8 => "invalidUtf8"
+  | .parse _ => "parse"
+  | .namespaceExists _ => "namespaceExists"
+  | .nameExists _ => "nameExists"
+  | .notDeployed _ => "notDeployed"
+  | .input _ => "input"
+
+def respSexp (r : Resp) : Sexp :=
+  let kind : Sexp := match r with
+    | .added _ _ => .atom "added"
+    | .status _ => .atom "status"
+    | .value _ => .atom "value"
+    | .error e => .list [.atom "error", .atom (errKind e)]
+  let wf := match Json.decode r.body with
+    | some _ => true
+    | none => false
+  .list [kind, Sexp.ofChars r.body, optJson (some r.json), Sexp.ofBool wf]
+
+def serveWith (h : State → Request JV → State × Resp) : State → List (Request JV) → List Resp
+  | _, [] => []
+  | s, r :: rs =>
+    let (s', a) := h s r
+    a :: serveWith h s' rs
+
+
+/-! ### DTOs -/
+
+open Dmn.Dto in
+def kindOf : String → Option Kind
+  | "number" => some .number
+  | "date" => some .date
+  | "time" => some .time
+  | "dateTime" => some .dateTime
+  | "ymDuration" => some .ymDuration
+  | "dtDuration" => some .dtDuration
+  | _ => none
+
+open Dmn.Dto in
+partial def tvOf : Sexp → Option TV
+  | .list [.atom "null"] => some .null
+  | .list [.atom "b", b] => (Sexp.bool? b).map TV.bool
+  | .list [.atom "str", t] => (Sexp.chars? t).map TV.str
+  | .list [.atom "k", .atom k, t] => do
+    let k ← kindOf k
+    let t ← Sexp.chars? t
+    pure (TV.scalar k t)
+  | .list (.atom "l" :: xs) => (xs.mapM tvOf).map TV.list
+  | .list (.atom "c" :: es) =>
+    (es.mapM (fun (e : Sexp) => match e with
+      | .list [k, v] => do
+        let k ← Sexp.chars? k
+        let v ← tvOf v
+        pure (k, v)
+      | _ => none)).map TV.ctx
+  | _ => none
+
+open Dmn.Dto in
+def kindName : Kind → String
+  | .number => "number" | .date => "date" | .time => "time" | .dateTime => "dateTime"
+  | .ymDuration => "ymDuration" | .dtDuration => "dtDuration"
+
+open Dmn.Dto in
+partial def tvSexp : TV → Sexp
+  | .null => .list [.atom "null"]
+  | .bool b => .list [.atom "b", Sexp.ofBool b]
+  | .str s => .list [.atom "str", Sexp.ofChars s]
+  | .scalar k t => .list [.atom "k", .atom (kindName k), Sexp.ofChars t]
+  | .list xs => .list (.atom "l" :: xs.map tvSexp)
+  | .ctx es => .list (.atom "c" :: es.map (fun (k, v) => .list [Sexp.ofChars k, tvSexp v]))
+
+/-- the readers as the harness observed them: `(kind text canonical?)` rows -/
+def lookup (table : List (String × List Char × Option (List Char))) (kind : String) (t : List Char) : Option (List Char) :=
+  match table.find? (fun r => r.1 == kind && r.2.1 == t) with
+  | some r => r.2.2
+  | none => none
+
+open Dmn.Dto in
+def readersOf (table : List (String × List Char × Option (List Char))) : Readers where
+  number := lookup table "number"
+  date := lookup table "date"
+  time := lookup table "time"
+  dateTime := lookup table "dateTime"
+  ymDuration := lookup table "ymDuration"
+  dtDuration := lookup table "dtDuration"
+  name := lookup table "name"
+
+def rowOf : Sexp → Option (String × List Char × Option (List Char))
+  | .list [.atom k, t, .atom "none"] => (Sexp.chars? t).map (fun t => (k, t, none))
+  | .list [.atom k, t, c] => do
+    let t ← Sexp.chars? t
+    let c ← Sexp.chars? c
+    pure (k, t, some c)
+  | _ => none
+
+def jstr (s : String) : Json := .str s.toList
+def key (s : String) : List Char := s.toList
+
+open Dmn.Dto in
+def xsdName : XsdType → String
+  | .string => "xsd:string" | .integer => "xsd:integer" | .decimal => "xsd:decimal" | .double => "xsd:double"
+  | .boolean => "xsd:boolean" | .date => "xsd:date" | .time => "xsd:time" | .dateTime => "xsd:dateTime"
+  | .duration => "xsd:duration" | .other n => String.ofList n
+
+def optStr : Option (List Char) → Json
+  | some t => .str t
+  | none => .null
+
+open Dmn.Dto in
+mutual
+/-- `ValueDto` as `serde_json` writes it (fields in declaration order, `None` as `null`). -/
+partial def dtoJson : Dto → Json
+  | .simple typ text isNil =>
+    .obj [(key "simple", .obj [(key "type", match typ with | some t => jstr (xsdName t) | none => .null),
+                               (key "text", optStr text), (key "isNil", .bool isNil)]),
+          (key "components", .null), (key "list", .null)]
+  | .components cs => .obj [(key "simple", .null), (key "components", .arr (compsJson cs)), (key "list", .null)]
+  | .list items isNil =>
+    .obj [(key "simple", .null), (key "components", .null),
+          (key "list", .obj [(key "items", .arr (listJson items)), (key "isNil", .bool isNil)])]
+  | .empty => .obj [(key "simple", .null), (key "components", .null), (key "list", .null)]
+  | .missing => .null
+partial def compsJson : DtoComps → List Json
+  | .nil => []
+  | .cons name value isNil rest =>
+    .obj [(key "name", optStr name), (key "value", dtoJson value), (key "isNil", .bool isNil)] :: compsJson rest
+partial def listJson : DtoList → List Json
+  | .nil => []
+  | .cons d rest => dtoJson d :: listJson rest
+end
+
+def handleDto (v : Sexp) (rows : List Sexp) : String :=
+  match tvOf v, rows.mapM rowOf with
+  | some v, some table =>
+    let rd := readersOf table
+    let d := Dmn.Dto.toDto v
+    let back := match Dmn.Dto.fromDto rd d with
+      | some b => tvSexp b
+      | none => .atom "none"
+    -- what the service answers: the DTO of the value it read
+    let backDto := match Dmn.Dto.fromDto rd d with
+      | some b => jsonSexp (dtoJson (Dmn.Dto.toDto b))
+      | none => .atom "none"
+    toString (Sexp.list [.list [.atom "dto", jsonSexp (dtoJson d)], .list [.atom "back", back],
+      .list [.atom "backdto", backDto],
+      .list [.atom "canonical", Sexp.ofBool (Dmn.Dto.canonical rd v)]])
+  | _, _ => "(error bad-dto)"
+
+def handle (args : List Sexp) : String :=
+  match args with
+  | .atom "dto" :: v :: rows => handleDto v rows
+  | [.atom "jsonify", v] =>
+    match jvOf v with
+    | none => "(error bad-value)"
+    | some v =>
+      let text := jsonify v
+      let fixed := jsonifyFixed v
+      toString (Sexp.list [
+        .list [.atom "text", Sexp.ofChars text],
+        .list [.atom "decoded", optJson (Json.decode text)],
+        .list [.atom "expected", jsonSexp (toJson v)],
+        .list [.atom "fixed", Sexp.ofChars fixed],
+        .list [.atom "fixeddecoded", optJson (Json.decode fixed)],
+        .list [.atom "noesc", Sexp.ofBool (noEscapeNeeded v)],
+        .list [.atom "numsok", Sexp.ofBool (numbersOk v)]])
+  | [.atom "decode", t] =>
+    match Sexp.chars? t with
+    | none => "(error bad-text)"
+    | some cs => toString (optJson (Json.decode cs))
+  | .atom "serve" :: reqs =>
+    match reqs.mapM reqOf with
+    | none => "(error bad-request)"
+    | some reqs =>
+      let ev : String → String → JV → JV := fun _ _ v => v
+      let m := (Server.serve codec ev WS.init reqs).2
+      let sp := serveWith (Server.handleFixed codec ev) WS.init reqs
+      toString (Sexp.list [.list (.atom "model" :: m.map respSexp), .list (.atom "spec" :: sp.map respSexp)])
+  | _ => "(error bad-request)"
 
 end Dmn.Driver.C18
